@@ -320,7 +320,9 @@ func (c12) Run(c *fw.Ctx) {
 			var lh *wt.Header
 			var lt wcmd.TimeSeriesList
 			var lerr error
-			local("sum", fw.J{"item": item, "pattern": pat, "archive": sel}, func() { lh, lt, lerr = wcmd.VerifSumWhisperFile(served, item, pat, sel, u32(from), u32(until), u32(now)) })
+			local("sum", fw.J{"item": item, "pattern": pat, "archive": sel}, func() {
+				lh, lt, lerr = wcmd.VerifSumWhisperFile(served, item, pat, sel, u32(from), u32(until), u32(now))
+			})
 			var rh *wt.Header
 			var rt wcmd.TimeSeriesList
 			var rerr error
